@@ -140,9 +140,9 @@ Proof. reflexivity. Qed.
 Definition client_fresh (r : clientrow) : bool :=
   match r with
   | ClientNew _ _ key _ _ fresh fields _ _ =>
-      fresh && String.eqb key "r . Addr" &&
-      existsb (fun f => (String.eqb (fst f) "Addr" && String.eqb (snd f) "r . Addr") ||
-                        (String.eqb (fst f) "Addrs" && String.eqb (snd f) "[ ] string { r . Addr }")) fields
+      fresh && String.eqb key "r.Addr" &&
+      existsb (fun f => (String.eqb (fst f) "Addr" && String.eqb (snd f) "r.Addr") ||
+                        (String.eqb (fst f) "Addrs" && String.eqb (snd f) "[ ] string { r.Addr }")) fields
   | ClientUnknown _ _ => false
   end.
 
